@@ -3,6 +3,7 @@ import CelerVerif.Model.Csg
 import CelerVerif.Model.CsgLogic
 import CelerVerif.Model.CsgDeMorgan
 import CelerVerif.Model.CsgInfix
+import CelerVerif.Model.CsgRuntime
 import CelerVerif.Model.Util
 
 namespace CelerVerif.Csg
@@ -186,6 +187,21 @@ def driverStep (t : Tree) (line : String) : Tree × String :=
         | .ok t' unk => (t', withDump ("unknown" ++ String.join (unk.map fun u => s!" {u}")) t')
         | .contradiction t' => (t', withDump "validate-error" t')
         | .outOfFuel t' => (t', withDump "out-of-fuel" t')
+      else (t, "bad-op")
+    | _, _ => (t, "bad-op")
+  | ["rtflags", a, b, c, d] =>
+    -- runtime flags of UnitInserter: input flags, all-faces-simple, exceeds-limits, has-daughter
+    match parseDec a, parseDec b, parseDec c, parseDec d with
+    | some inF, some ss, some ex, some dau =>
+      if inF < 16 ∧ ss ≤ 1 ∧ ex ≤ 1 ∧ dau ≤ 1 then
+        let f := runtimeFlags inF (ss = 1) (ex = 1) (dau = 1)
+        (t, s!"out {f} internal {if runtimeInternalSurfaces f then 1 else 0}")
+      else (t, "bad-op")
+    | _, _, _, _ => (t, "bad-op")
+  | ["protoflags", a, b] =>
+    match parseDec a, parseDec b with
+    | some fl, some ext =>
+      if fl ≤ 1 ∧ ext ≤ 1 then (t, s!"flags {protoVolumeFlags (fl = 1) (ext = 1)}")
       else (t, "bad-op")
     | _, _ => (t, "bad-op")
   | ["demorgan"] =>
